@@ -95,6 +95,21 @@ T = {
     "C17-b": ("C17", "C17.R5|fresh-waker-on-pending", "before (rule added for C03-a)",
               "a JoinHandle polled once with one waker and then awaited with another (moved to another task / pushed into FuturesUnordered) before the task completes",
               "cargo test --offline -p shuttle --test seed_demo"),
+    "C08-b": ("C08", "C08.R2|list-filled-in-one-ordered-pass", "after",
+              "a task blocked in thread::park with a lower id than some runnable task (main parks while its child runs): the scheduler receives [1, 0]; RoundRobin never returns to the parked task",
+              "cargo test --offline -p shuttle --test seed_demo"),
+    "C14-b": ("C14", "C14.R1|state|shuttle_engine::runtime::execution::CURRENT_SCHEDULE", "after",
+              "an execution calls reset_step_count(); a later execution on the same OS thread relies on the step bound before its own reset: its bound is max_steps + L",
+              "cargo test --offline -p shuttle --test seed_demo"),
+    "C15-b": ("C15", "C15.E|mpsc-bounded-recv-publishes-merged-clock", "after",
+              "bounded non-rendezvous channel, two producers: X.send, consumer.recv (of X's message), Y.send into the freed slot — Y's clock does not dominate X's send",
+              "cargo test --offline -p shuttle --test seed_demo"),
+    "C18-b": ("C18", "C18.R7|grant-loop-runs-to-fixpoint", "after",
+              "strictly fair semaphore, queued oversized head cancelled while two smaller waiters behind it both fit: only the first is granted, the second is stranded",
+              "cargo test --offline -p shuttle --test seed_demo"),
+    "C20-b": ("C20", "C20.R1", "before",
+              "try_upgradable_read failing because a writer holds (or is queued for) the lock while the upgradable slot is free: the slot stays taken, no upgradable reader is ever admitted again",
+              "cargo test --offline -p shuttle-parking_lot-impl --test seed_demo"),
     "C17-a": ("C17", "C17.R2|wake-sets-woken", "before",
               "a waker invoked (or abort called) while the task is Blocked inside its poll on a blocking primitive (mpsc recv, Condvar, Barrier, join, park): the wake is forgotten and the task sleeps forever",
               "cd demo && cargo test --offline"),
